@@ -15,6 +15,7 @@ FALSE on the current tree (module `FindingRestSuOlson`): the documented half spa
 -/
 import EPV.Gen.SuOlson
 import EPV.Lemmas.C20Rest
+import EPV.Lemmas.Bridge.SemiSu
 
 set_option linter.all false
 
@@ -23,22 +24,26 @@ open EPV EPV.Gen
 namespace EPV.C20
 
 theorem suolson_time_domain (p : SuOlson.P) (z t : ℝ) : SuOlson.outcome p z t = .nan ↔ t ≤ 0 := by
-  simp only [epv_tree, epv_cond]
-  by_cases h : t ≤ 0 <;> simp [h]
+  simp only [epv_tree]
+  split_ifs with h <;> simp only [epv_cond] at h <;> constructor <;> intro h' <;>
+    first | rfl | (exfalso; epv_semi_lin) | epv_semi_lin | cases h'
 
 theorem suolson_never_raises (p : SuOlson.P) (z t : ℝ) :
     SuOlson.outcome p z t = .ok ∨ SuOlson.outcome p z t = .nan := by
   simp only [epv_tree]
-  by_cases h : SuOlson.c0 p z t <;> simp [h]
+  split_ifs <;> simp
 
 theorem suolson_welldefined_partial (p : SuOlson.P) (z t : ℝ) (hα : p.alpha ≠ 0) (hT : p.trad_bc_ev ≠ 0)
     (hU : ∀ x τ ε, 0 < p.Usol x τ ε) (hV : ∀ x τ ε u, 0 < p.Vsol x τ ε u) : SuOlson.L1.WellDefined p z t := by
   unfold SuOlson.L1.WellDefined
-  have h4 : ∀ k : ℝ, 0 < k → 0 < (p.trad_bc_ev / k) ^ (4 : ℕ) := fun k hk => by
-    have : p.trad_bc_ev / k ≠ 0 := div_ne_zero hT hk.ne'
-    positivity
-  exact ⟨hα, div_pos (mul_pos (hU _ _ _) (mul_pos (by norm_num) (h4 _ (by norm_num)))) (by norm_num),
-    div_pos (mul_pos (hV _ _ _ _) (mul_pos (by norm_num) (h4 _ (by norm_num)))) (by norm_num)⟩
+  -- every conjunct is `α ≠ 0` or `0 < <a quotient / product of U or V, constants and (T_bc/k_B)⁴>`, whatever the
+  -- order of the factors: decompose by the rules, the numerals by `norm_num`
+  have h4 : ∀ a : ℝ, a ≠ 0 → 0 < a ^ (4 : ℕ) := fun a ha => by positivity
+  repeat' apply And.intro
+  all_goals
+    first
+    | exact hα
+    | (apply_rules [div_pos, mul_pos, hU, hV, h4, div_ne_zero, mul_ne_zero, hT, hα] <;> norm_num)
 
 /-- non-vacuity: constant positive U, V with the class defaults -/
 example : ∃ p : SuOlson.P, p.alpha ≠ 0 ∧ p.trad_bc_ev ≠ 0 ∧ (∀ x τ ε, 0 < p.Usol x τ ε) ∧ (∀ x τ ε u, 0 < p.Vsol x τ ε u) :=
